@@ -213,6 +213,17 @@ func gen(seed int64, n int, tier string) []interface{} {
 					}
 				}
 			}
+			if r.Intn(5) == 0 && f.Unit.Kind == "class" { // an import used only as the OUTER part of a nested type name
+				f.Unit.Members = append([]javagen.Member{{Kind: "field", Name: "entryv", Type: "Map.Entry<String, Integer>", Mods: []string{"private"}}}, f.Unit.Members...)
+				add(javagen.Import{Pkg: "java.util", Name: "Map"})
+			}
+			if r.Intn(5) == 0 && f.Unit.Kind == "class" { // a USED name that merely starts with the simple name of an unused import
+				orphan++
+				un := fmt.Sprintf("Orphan%d", orphan)
+				f.Unit.Members = append([]javagen.Member{{Kind: "field", Name: "holderv", Type: un + "Holder", Mods: []string{"private"}}}, f.Unit.Members...)
+				add(javagen.Import{Pkg: "unused.pkg", Name: un + "Holder"})
+				add(javagen.Import{Pkg: "unused.pkg", Name: un})
+			}
 			if r.Intn(4) == 0 { // an all-capitals class name used only as a static receiver
 				for j := range f.Unit.Members {
 					m := &f.Unit.Members[j]
